@@ -149,3 +149,6 @@ DEVICE_INFO = {
     "Granularity": int, "DynamicChannelsSupported": (int, bool), "GroupMessaging": bool,
     "NrOfRXPDO": int, "NrOfTXPDO": int, "LSS_Supported": bool,
 }
+
+# CiA 306 4.5.1 [DeviceInfo]: BaudRate_10 ... BaudRate_1000 (kbit/s), the eight CiA 301 bit rates
+EDS_BAUDRATES = [10, 20, 50, 125, 250, 500, 800, 1000]
